@@ -19,7 +19,7 @@ RULE = ('generated documents of three schema families (varying depth / width; ID
         '(several parser read buffers); a case = (document, '
         'lazy depth, thin, api); distinct non-trivial = distinct (family, fault kind, api, thin) combinations with at '
         'least two root children (several chunks)')
-RULE += (' ' + 'Shard chunkns: namespace declarations made on the streamed chunk itself and used by its xsi:type and QName values. Long documents (shop, flat) carry identity faults at their end (a part the streaming reader meets after many chunks); iterfind with a positional predicate is compared too (thin_lazy=True: listed finding).')
+RULE += (' ' + 'Shard rootx: xsi:type on the root and skip wildcards decide what governs a streamed chunk (two listed findings). Shard chunkns: namespace declarations made on the streamed chunk itself and used by its xsi:type and QName values. Long documents (shop, flat) carry identity faults at their end (a part the streaming reader meets after many chunks); iterfind with a positional predicate is compared too (thin_lazy=True: listed finding).')
 ASSUMPTIONS = [
     'lazy errors deliberately carry no element: errors are compared on (reason) in order, not on .elem / .path',
     'lazy decode returns generators for the streamed parts: compared after full materialisation',
@@ -47,6 +47,7 @@ def plan(tier, seed):
     specs = [{'kind': 'gen', 'docs': ndocs // shards, 'gshard': s} for s in range(shards)]
     specs.append({'kind': 'corpus'})
     specs.append({'kind': 'chunkns', 'docs': 40 if tier == 'quick' else 400})
+    specs.append({'kind': 'rootx', 'docs': 12 if tier == 'quick' else 120})
     return specs
 
 
@@ -424,8 +425,55 @@ def run_chunkns(spec, res):
                              error_order=fault == 'valid')
 
 
+ROOTX_XSD = '''<xs:schema xmlns:xs="http://www.w3.org/2001/XMLSchema">
+<xs:complexType name="base"><xs:sequence><xs:element name="a" type="xs:int" maxOccurs="unbounded"/></xs:sequence></xs:complexType>
+<xs:complexType name="ext"><xs:complexContent><xs:extension base="base"><xs:sequence><xs:element name="b" type="xs:int" minOccurs="0" maxOccurs="unbounded"/>
+</xs:sequence></xs:extension></xs:complexContent></xs:complexType>
+<xs:element name="root" type="base"/>
+<xs:element name="g" type="xs:int"/>
+<xs:element name="open"><xs:complexType><xs:sequence><xs:any processContents="skip" minOccurs="0" maxOccurs="unbounded"/></xs:sequence></xs:complexType></xs:element>
+</xs:schema>'''
+
+
+def run_rootx(spec, res):
+    """What governs a streamed chunk is decided by its parent: the root's xsi:type (children that exist only in the derived
+    type) and the wildcard that admits it (a skipped child is not validated). The mechanism of a difference is named by the
+    scenario, not by the message."""
+    xmlschema = env.activate_repo()
+    rng = env.rng_for(PROPERTY, spec['tier'], spec['seed'], 'rootx')
+    XSI = 'xmlns:xsi="http://www.w3.org/2001/XMLSchema-instance"'
+    for version, cls in (('1.0', xmlschema.XMLSchema10), ('1.1', xmlschema.XMLSchema11)):
+        schema = cls(ROOTX_XSD)
+        cases = []
+        for _ in range(spec['docs']):
+            a = ''.join(f'<a>{rng.choice(("1", "2", "x"))}</a>' for _ in range(rng.randint(1, 3)))
+            b = ''.join(f'<b>{rng.choice(("1", "x", "y"))}</b>' for _ in range(rng.randint(0, 3)))
+            cases.append(('root-xsi-type', f'<root {XSI} xsi:type="ext">{a}{b}</root>'))
+            cases.append(('root-plain', f'<root>{a}</root>'))
+            g = ''.join(f'<g>{rng.choice(("1", "abc"))}</g><other>{rng.choice(("1", "abc"))}</other>' for _ in range(rng.randint(1, 3)))
+            cases.append(('skip-wildcard', f'<open>{g}</open>'))
+        for scenario, text in cases:
+            for thin in (True, False):
+                res.count('rootx:compared')
+                res.evaluations += 1
+                res.case(env.h8(('rootx', scenario, thin, text)))
+                eager = sorted(clean_reason(e.reason) for e in schema.iter_errors(text))
+                lazy = sorted(clean_reason(e.reason) for e in schema.iter_errors(xmlschema.XMLResource(text, lazy=1, thin_lazy=thin)))
+                if eager == lazy:
+                    res.count('rootx:agree')
+                    continue
+                if scenario == 'root-xsi-type' and set(lazy) <= set(eager):
+                    mech = 'lazy-skips-children-that-exist-only-in-the-type-named-by-xsi-type-on-the-root'
+                elif scenario == 'skip-wildcard' and set(eager) <= set(lazy):
+                    mech = 'lazy-validates-children-admitted-by-a-skip-wildcard'
+                else:
+                    mech = 'lazy-differs:rootx:' + scenario
+                res.violation(mech, {'family': 'rootx', 'version': version, 'doc': text, 'thin': thin},
+                              f'{scenario} thin={thin}: lazy {lazy[:3]} eager {eager[:3]}')
+
+
 def run_shard(spec, res):
-    {'gen': run_gen, 'corpus': run_corpus, 'chunkns': run_chunkns}[spec['kind']](spec, res)
+    {'gen': run_gen, 'corpus': run_corpus, 'chunkns': run_chunkns, 'rootx': run_rootx}[spec['kind']](spec, res)
 
 
 def finalize(res, tier):
